@@ -59,6 +59,7 @@ type FnCtx struct {
 	depth  int
 	notes  []string
 	unknownCallees map[string]bool
+	lemmaBeingProved string
 	retVals []retInfo // for inlining
 	inline bool
 	frameParent *FnCtx
